@@ -56,6 +56,28 @@ func runC03(c *Ctx) {
 	rwT := p.MustNamed("responseWriter")
 	_ = rwT
 	flushHeaders := p.MustFunc("(*responseWriter).flushHeaders")
+	// the flusher and the helpers it alone calls (a split 'guard + body' is one flusher)
+	flushFam := []*ssa.Function{flushHeaders}
+	inFlushFam := map[*ssa.Function]bool{flushHeaders: true}
+	for changed := true; changed; {
+		changed = false
+		for _, fn := range p.Funcs {
+			if inFlushFam[fn] || !p.inScope(fn) || fn.Signature.Recv() == nil || !isPtrTo(fn.Signature.Recv().Type(), RootPath, "responseWriter") || len(p.Callers(fn)) == 0 {
+				continue
+			}
+			all := true
+			for _, e := range p.Callers(fn) {
+				if !inFlushFam[e.Caller] {
+					all = false
+				}
+			}
+			if all {
+				inFlushFam[fn] = true
+				flushFam = append(flushFam, fn)
+				changed = true
+			}
+		}
+	}
 	reportEnd := p.MustFunc("(*responseWriter).reportEnd")
 	emitters, isEmitter, isEndEncode := endEmitters(p)
 	writeHeader := p.MustFunc("(*responseWriter).WriteHeader")
@@ -116,12 +138,12 @@ func runC03(c *Ctx) {
 		for _, call := range Calls(fn) {
 			cc := call.Common()
 			if cc.IsInvoke() && N(cc.Method) == "encodeEnd" {
-				ok := fn == opReport || fn == reportEnd || fn == flushHeaders
+				ok := fn == opReport || fn == reportEnd || inFlushFam[fn]
 				if !ok && fn.Signature.Recv() != nil && isPtrTo(fn.Signature.Recv().Type(), RootPath, "responseWriter") {
-					// a helper of the response writer reached only through reportEnd / flushHeaders
+					// a helper of the response writer reached only through reportEnd / the flusher
 					ok = len(p.Callers(fn)) > 0
 					for _, e := range p.Callers(fn) {
-						if e.Caller != reportEnd && e.Caller != flushHeaders {
+						if e.Caller != reportEnd && !inFlushFam[e.Caller] {
 							ok = false
 						}
 					}
@@ -131,7 +153,7 @@ func runC03(c *Ctx) {
 			}
 			if cc.IsInvoke() && N(cc.Method) == "WriteHeader" && isNamed(cc.Value.Type(), "net/http", "ResponseWriter") {
 				allowed := map[string]bool{"(*responseWriter).flushHeaders": true, "(*operation).reportError": true, "(*httpError).Encode": true, "httpWriteError": true}
-				c.Check(allowed[FuncName(fn)], "C03.2", FuncName(fn), "who-calls:WriteHeader", call.Pos(),
+				c.Check(allowed[FuncName(fn)] || inFlushFam[fn], "C03.2", FuncName(fn), "who-calls:WriteHeader", call.Pos(),
 					"the underlying writer's WriteHeader is called from a designated site", "the underlying ResponseWriter.WriteHeader is called outside the designated sites: more than one response head can be written")
 			}
 		}
@@ -157,7 +179,7 @@ func runC03(c *Ctx) {
 		}
 	}
 	fieldFalse := func(b *ssa.BasicBlock, fld *types.Var) bool {
-		for _, f := range FactsAt(b) {
+		for _, f := range p.FactsAtInter(b) {
 			if !f.Truth && LoadedField(f.Cond) == fld {
 				return true
 			}
@@ -185,32 +207,34 @@ func runC03(c *Ctx) {
 				"the end is emitted only on the edge where endWritten is false", "reportEnd can emit an end although one was already written (endWritten not tested on this path)")
 		}
 	})
-	ForEachInstr(flushHeaders, func(in ssa.Instruction) {
-		ci, ok := in.(ssa.CallInstruction)
-		if !ok {
-			return
-		}
-		cc := ci.Common()
-		if cc.IsInvoke() && N(cc.Method) == "WriteHeader" {
-			c.Check(fieldFalse(in.Block(), headersFlushedF), "C03.2", FuncName(flushHeaders), "guard:headersFlushed", in.Pos(),
-				"the response head is written only on the edge where headersFlushed is false", "flushHeaders can write the response head twice (headersFlushed not tested)")
-			setsFlag := func(x ssa.Instruction) bool {
-				st, ok := x.(*ssa.Store)
-				if !ok {
-					return false
-				}
-				fa, ok := st.Addr.(*ssa.FieldAddr)
-				if !ok || FieldOfAddr(fa) != headersFlushedF {
-					return false
-				}
-				b, isC := ConstBool(st.Val)
-				return isC && b
+	for _, flushFn := range flushFam {
+		ForEachInstr(flushFn, func(in ssa.Instruction) {
+			ci, ok := in.(ssa.CallInstruction)
+			if !ok {
+				return
 			}
-			okSet, path := MustPassToExit(flushHeaders, in, setsFlag, IsReturn, nil)
-			c.Check(okSet, "C03.2", FuncName(flushHeaders), "sets:headersFlushed", in.Pos(),
-				"headersFlushed is set on every path after the head was written", "a path leaves flushHeaders after writing the head without setting headersFlushed: "+witnessString(p, path))
-		}
-	})
+			cc := ci.Common()
+			if cc.IsInvoke() && N(cc.Method) == "WriteHeader" {
+				c.Check(fieldFalse(in.Block(), headersFlushedF), "C03.2", FuncName(flushHeaders), "guard:headersFlushed", in.Pos(),
+					"the response head is written only on the edge where headersFlushed is false", "flushHeaders can write the response head twice (headersFlushed not tested)")
+				setsFlag := func(x ssa.Instruction) bool {
+					st, ok := x.(*ssa.Store)
+					if !ok {
+						return false
+					}
+					fa, ok := st.Addr.(*ssa.FieldAddr)
+					if !ok || FieldOfAddr(fa) != headersFlushedF {
+						return false
+					}
+					b, isC := ConstBool(st.Val)
+					return isC && b
+				}
+				okSet, path := MustPassToExit(flushFn, in, setsFlag, IsReturn, nil)
+				c.Check(okSet, "C03.2", FuncName(flushHeaders), "sets:headersFlushed", in.Pos(),
+					"headersFlushed is set on every path after the head was written", "a path leaves flushHeaders after writing the head without setting headersFlushed: "+witnessString(p, path))
+			}
+		})
+	}
 	{
 		setsEnd := func(x ssa.Instruction) bool {
 			st, ok := x.(*ssa.Store)
@@ -299,7 +323,13 @@ func runC03(c *Ctx) {
 
 	// ---------------------------------------------------------------- C03.4
 	c.Rule("C03.4", "Content-Length equals the buffer written, only without error; backend Content-Length consumed first", 4)
-	for _, m := range HeaderMutations(flushHeaders) {
+	var flushMuts []HeaderMutation
+	var flushCalls []ssa.CallInstruction
+	for _, flushFn := range flushFam {
+		flushMuts = append(flushMuts, HeaderMutations(flushFn)...)
+		flushCalls = append(flushCalls, Calls(flushFn)...)
+	}
+	for _, m := range flushMuts {
 		if m.Key == nil {
 			continue
 		}
@@ -326,7 +356,7 @@ func runC03(c *Ctx) {
 			"Content-Length of the buffered body is announced only when the response carries no error", "Content-Length of the buffered body is announced although an error body will be written instead")
 	}
 	nWT := 0
-	for _, call := range Calls(flushHeaders) {
+	for _, call := range flushCalls {
 		if !IsCallTo(call, "(*bytes.Buffer).WriteTo") {
 			continue
 		}
